@@ -21,10 +21,11 @@ import (
 	"github.com/deadsy/sdfx/render"
 	"github.com/deadsy/sdfx/sdf"
 	v3 "github.com/deadsy/sdfx/vec/v3"
+	"verifharness/iogen"
 	. "verifharness/kit"
 )
 
-func main() { Main("C13", checkC13) }
+func main() { Main("C13", checkC13, iogen.Gen) }
 
 type tri = [3][3]float64
 
@@ -462,6 +463,18 @@ func checkC13(c *Ctx, r *Report) error {
 			return err
 		}
 	}
+	// write schedules of the streaming writer and file histories of both writers (histories.go)
+	if err := scheduleAndHistoryStrata(&strataEnv{c: c, r: r, rng: rng, tmp: tmp, gen: gen,
+		nextID: func() int { id++; return id },
+		emit: func(term string, ntris int) {
+			shard = append(shard, term)
+			shardTris += ntris + 1
+			if shardTris > 600 {
+				flush()
+			}
+		}}); err != nil {
+		return err
+	}
 	for _, n := range big {
 		if err := listCase("len:large", gen(n)); err != nil {
 			return err
@@ -555,6 +568,7 @@ func checkC13(c *Ctx, r *Report) error {
 	}
 
 	r.Rule = "conversion cases: one float64 per case from 11 strata (exact float32 values, midpoints of adjacent float32 incl. subnormal / carry / overflow-threshold ties and their float64 neighbours, subnormal and underflow range, beyond MaxFloat32, any exponent, signed zeros); distinct by bit pattern. list cases: triangle lists of length 0..large (quick 2000, thorough 7000) whose triangles come from the same coordinate strata, ordinary geometry, degenerate and axis-aligned triangles; written with SaveSTL and with ToSTL through a scripted Render3 that delivers random batches; non-trivial = at least one triangle, distinct by the bit patterns of all coordinates. ascii cases: listings of 0..40 triangles written in several number formats / indentation / line-ending styles; distinct by file content."
+	r.Rule += strataRule
 	r.Trusted = append(r.Trusted,
 		"hand models coq/Io/F32.v, Io/Stl.v, Io/StlLoad.v tied to render/stl.go by differential execution inside coqc: bytes of SaveSTL and ToSTL vs Stl.save_f / Stl.stream_save_f (every byte identical, header text ignored; Normal components within 2^-22), LoadSTL vs Stl.decode, float32 conversions vs F32.narrow32/widen32 bit for bit",
 		"harness oracles: math/big rounding to float32, 300-bit exact normal, os file IO",
